@@ -139,6 +139,25 @@ func VF_NodeSign() {
 	bz, _ := json.Marshal(d)
 	_ = e.fsm.SaveFSM("round", bz)
 
+	// message identifiers: concrete ("b<batch>m<k>") or, with param symids, the ids of the first batch are arbitrary pairwise
+	// distinct strings "m"+<any byte> in whatever order the proposer lists them
+	ids := map[string][]string{}
+	idOf := func(bs string, k int) string {
+		for len(ids[bs]) <= k {
+			j := len(ids[bs])
+			id := "b" + bs + "m" + strconv.Itoa(j)
+			if vf.Param("symids") != "" && bs == "1" {
+				id = "m" + string([]byte{vf.Byte("b" + bs + ".id" + strconv.Itoa(j))})
+				for _, bb := range []string{"1", "2"} {
+					for _, o := range ids[bb] {
+						vf.Assume(o != id)
+					}
+				}
+			}
+			ids[bs] = append(ids[bs], id)
+		}
+		return ids[bs][k]
+	}
 	runBatch := func(b int, order []int, lateFrom int, lateBatch string, latePayloads [][]byte) ([][]byte, bool) {
 		bs := strconv.Itoa(b)
 		batchID := "batch-" + bs
@@ -147,7 +166,7 @@ func VF_NodeSign() {
 		for k := 0; k < ntasks; k++ {
 			p := vf.Bytes("b"+bs+".payload"+strconv.Itoa(k), 2)
 			payloads = append(payloads, p)
-			tasks = append(tasks, requests.SigningTask{MessageID: "b" + bs + "m" + strconv.Itoa(k), File: "file" + strconv.Itoa(k), Payload: p})
+			tasks = append(tasks, requests.SigningTask{MessageID: idOf(bs, k), File: "file" + strconv.Itoa(k), Payload: p})
 		}
 		start := requests.SigningBatchProposalStartRequest{BatchID: batchID, ParticipantId: 0, CreatedAt: vf.Time("b" + bs + ".created"), SigningTasks: tasks}
 		if err := e.node.ProcessMessage(vfSignedMessage("event_signing_start", 0, start)); err != nil {
@@ -158,7 +177,7 @@ func VF_NodeSign() {
 		answer := func(i int, batch string, ps [][]byte, tag string) error {
 			var signs []requests.PartialSign
 			for k := range ps {
-				id := "b" + batch[len(batch)-1:] + "m" + strconv.Itoa(k)
+				id := idOf(batch[len(batch)-1:], k)
 				signs = append(signs, requests.PartialSign{MessageID: id, Sign: cr.share(i, ps[k], tag+"."+strconv.Itoa(i)+"."+strconv.Itoa(k))})
 			}
 			req := requests.SigningProposalBatchPartialSignRequests{BatchID: batch, ParticipantId: i, PartialSigns: signs, CreatedAt: vf.Time(tag + ".created" + strconv.Itoa(i))}
@@ -194,7 +213,7 @@ func VF_NodeSign() {
 		vf.Assert("ends-idle:batch"+bs, dumpNow != nil && string(dumpNow.State) == "stage_signing_idle")
 		stored, _ := e.node.sigService.GetSignaturesByBatchID(&dto.SignaturesByBatchIdDTO{DkgID: "round", BatchID: batchID})
 		for k := range payloads {
-			id := "b" + bs + "m" + strconv.Itoa(k)
+			id := idOf(bs, k)
 			entries := stored[id]
 			found := false
 			for _, en := range entries {
